@@ -297,7 +297,7 @@ class SpecFn(object):
         if self.ret == "bool":
             return _be(v)
         if self.ret == "IntSet":
-            return v.e
+            return SSet.of(v).e
         if self.ret == "IntSeq":
             return sym.ZSeq.of(v).e
         sort, mk, acc = _tuple_sort(self.ret)
